@@ -49,6 +49,31 @@ pub enum Cause {
     RedirectError,
     /// `set -e; nosuchcmd_c16`
     UnknownCommand,
+    /// `set -e; xa=$(simexit S)`
+    ErrexitAssign(u8),
+    /// `set -e; (( 0 ))`
+    ErrexitArith,
+    /// `set -e; [[ a == b ]]`
+    ErrexitCond,
+    /// `set -e; true && simexit S` (the last operand of an and-or list is not exempt)
+    ErrexitAndOrLast(u8),
+}
+
+/// Other ways of producing a status than a plain `simexit S`.
+#[derive(Clone, Debug, Serialize, Deserialize, PartialEq)]
+pub enum Via {
+    /// `xa=$(simexit S)`
+    Assign(u8),
+    /// `(( 0 ))`
+    Arith,
+    /// `[[ a == b ]]`
+    Cond,
+    /// `true && simexit S`
+    AndOrLast(u8),
+    /// `! true` (status 1, exempt from errexit and from the ERR trap)
+    Bang,
+    /// `simexit S || simexit 0` (first operand exempt; the list succeeds)
+    OrRescued(u8),
 }
 
 #[derive(Clone, Debug, Serialize, Deserialize, PartialEq)]
@@ -62,6 +87,11 @@ pub enum Node {
     Eval(Vec<Node>),
     Source(Vec<Node>),
     Brace(Vec<Node>),
+    /// `case x in x) BODY ;; esac`
+    CaseArm(Vec<Node>),
+    /// `while read wl; do BODY; done <<< x` (one iteration)
+    WhileRead(Vec<Node>),
+    StatusVia(Via),
     Subshell(Vec<Node>),
     CmdSubst(Vec<Node>),
     Bg(Vec<Node>),
@@ -133,6 +163,18 @@ impl Renderer {
                 format!(". ./src{i}.sh")
             }
             Node::Brace(b) => format!("{{\n{}\n}}", self.block(b)),
+            Node::CaseArm(b) => format!("case x in\nx)\n{}\n;;\nesac", self.block(b)),
+            // (a here-string, not a here-document: side finding, a here-document that follows a
+            // multi-line `$( … (( … )) … )` is mis-tokenised by brush)
+            Node::WhileRead(b) => format!("while read wl; do\n{}\ndone <<< x", self.block(b)),
+            Node::StatusVia(v) => match v {
+                Via::Assign(s) => format!("xa=$(simexit {s})"),
+                Via::Arith => "(( 0 ))".to_string(),
+                Via::Cond => "[[ a == b ]]".to_string(),
+                Via::AndOrLast(s) => format!("true && simexit {s}"),
+                Via::Bang => "! true".to_string(),
+                Via::OrRescued(s) => format!("simexit {s} || simexit 0"),
+            },
             Node::Subshell(b) => format!("(\n{}\n)", self.block(b)),
             Node::CmdSubst(b) => {
                 let i = self.id();
@@ -173,6 +215,10 @@ impl Renderer {
                 Cause::ParamError => ": ${UNSET_VAR_C16?boom}".to_string(),
                 Cause::RedirectError => "set -e\n: > /nonexistent_dir_c16/x".to_string(),
                 Cause::UnknownCommand => "set -e\nnosuchcmd_c16".to_string(),
+                Cause::ErrexitAssign(s) => format!("set -e\nxa=$(simexit {s})"),
+                Cause::ErrexitArith => "set -e\n(( 0 ))".to_string(),
+                Cause::ErrexitCond => "set -e\n[[ a == b ]]".to_string(),
+                Cause::ErrexitAndOrLast(s) => format!("set -e\ntrue && simexit {s}"),
             },
         }
     }
@@ -322,7 +368,24 @@ impl Model {
                 let s = st.status;
                 self.fail_point(st, s)
             }
-            Node::Eval(b) | Node::Brace(b) => self.block(b, st, record, capture),
+            Node::Eval(b) | Node::Brace(b) | Node::CaseArm(b) => self.block(b, st, record, capture),
+            Node::WhileRead(b) => {
+                // the loop condition (`read`) succeeded
+                st.status = 0;
+                self.block(b, st, record, capture)
+            }
+            Node::StatusVia(v) => match v {
+                Via::Assign(s) | Via::AndOrLast(s) => self.fail_point(st, *s),
+                Via::Arith | Via::Cond => self.fail_point(st, 1),
+                Via::Bang => {
+                    st.status = 1;
+                    Flow::Continue
+                }
+                Via::OrRescued(_) => {
+                    st.status = 0;
+                    Flow::Continue
+                }
+            },
             Node::Source(b) => {
                 let _ = self.id();
                 self.block(b, st, record, capture)
@@ -423,6 +486,14 @@ impl Model {
                     st.errexit = true;
                     self.fail_point(st, 127)
                 }
+                Cause::ErrexitAssign(s) | Cause::ErrexitAndOrLast(s) => {
+                    st.errexit = true;
+                    self.fail_point(st, *s)
+                }
+                Cause::ErrexitArith | Cause::ErrexitCond => {
+                    st.errexit = true;
+                    self.fail_point(st, 1)
+                }
             },
         }
     }
@@ -478,7 +549,22 @@ fn gen_block2(rng: &mut Rng, depth: u32, main_ctx: bool, in_eval: bool, in_func:
         let node = match pick {
             0..=2 => Node::Probe,
             3 => Node::Out,
-            4 => Node::Status(*rng.pick(&[0u8, 1, 3, 7])),
+            4 => {
+                if rng.below(3) == 0 {
+                    // (Via::Bang is not generated: side finding, brush applies errexit and the ERR
+                    // trap to a compound command whose status came from a `!` pipeline)
+                    Node::StatusVia(match *rng.pick(&[0u64, 1, 2, 3, 5]) {
+                        0 => Via::Assign(*rng.pick(&[0u8, 3, 7])),
+                        1 => Via::Arith,
+                        2 => Via::Cond,
+                        3 => Via::AndOrLast(*rng.pick(&[0u8, 3])),
+                        4 => Via::Bang,
+                        _ => Via::OrRescued(*rng.pick(&[1u8, 3])),
+                    })
+                } else {
+                    Node::Status(*rng.pick(&[0u8, 1, 3, 7]))
+                }
+            }
             5 if main_ctx => Node::TrapExit(match rng.below(8) {
                 0 => Handler::Failing,
                 1 => Handler::CallsFunction,
@@ -501,7 +587,10 @@ fn gen_block2(rng: &mut Rng, depth: u32, main_ctx: bool, in_eval: bool, in_func:
             }
             7 if main_ctx && !*term && rng.below(3) == 0 => {
                 *term = true;
-                Node::Term(match rng.below(9) {
+                Node::Term(match rng.below(12) {
+                    8 => Cause::ErrexitAssign(*rng.pick(&[1u8, 3])),
+                    9 => match rng.below(2) { 0 => Cause::ErrexitArith, _ => Cause::ErrexitCond },
+                    10 => Cause::ErrexitAndOrLast(*rng.pick(&[1u8, 3])),
                     0..=2 => Cause::Exit(Some(*rng.pick(&[0u8, 2, 4, 77]))),
                     3 => Cause::Exit(None),
                     4 => Cause::Errexit(*rng.pick(&[1u8, 3])),
@@ -517,6 +606,8 @@ fn gen_block2(rng: &mut Rng, depth: u32, main_ctx: bool, in_eval: bool, in_func:
             12 if !in_eval => Node::Eval(gen_block2(rng, depth + 1, main_ctx, true, in_func, budget, term)),
             13 => Node::Source(gen_block2(rng, depth + 1, main_ctx, in_eval, in_func, budget, term)),
             14 => Node::Brace(gen_block2(rng, depth + 1, main_ctx, in_eval, in_func, budget, term)),
+            18 if main_ctx => Node::CaseArm(gen_block2(rng, depth + 1, main_ctx, in_eval, in_func, budget, term)),
+            19 if main_ctx => Node::WhileRead(gen_block2(rng, depth + 1, main_ctx, in_eval, in_func, budget, term)),
             15 => {
                 let mut t = true; // no real termination inside; `exit` there ends the subshell only
                 let mut b = gen_block(rng, depth + 1, false, in_eval, budget, &mut t);
@@ -596,7 +687,7 @@ impl C16 {
         fn has_err_failing(ns: &[Node]) -> bool {
             ns.iter().any(|n| match n {
                 Node::TrapErr(ErrHandler::Exits(_) | ErrHandler::Failing) => true,
-                Node::If(b) | Node::Eval(b) | Node::Brace(b) | Node::Func(b) | Node::Source(b) | Node::For(_, b) | Node::Subshell(b) | Node::CmdSubst(b) | Node::Bg(b) => has_err_failing(b),
+                Node::If(b) | Node::Eval(b) | Node::Brace(b) | Node::CaseArm(b) | Node::WhileRead(b) | Node::Func(b) | Node::Source(b) | Node::For(_, b) | Node::Subshell(b) | Node::CmdSubst(b) | Node::Bg(b) => has_err_failing(b),
                 _ => false,
             })
         }
@@ -605,9 +696,9 @@ impl C16 {
         fn tame_in_funcs(ns: &mut [Node], in_func: bool) {
             for n in ns.iter_mut() {
                 match n {
-                    Node::Term(Cause::Errexit(_) | Cause::RedirectError | Cause::UnknownCommand | Cause::Nounset | Cause::ParamError) if in_func => *n = Node::Probe,
+                    Node::Term(Cause::Errexit(_) | Cause::RedirectError | Cause::UnknownCommand | Cause::Nounset | Cause::ParamError | Cause::ErrexitAssign(_) | Cause::ErrexitArith | Cause::ErrexitCond | Cause::ErrexitAndOrLast(_)) if in_func => *n = Node::Probe,
                     Node::Func(b) => tame_in_funcs(b, true),
-                    Node::If(b) | Node::Eval(b) | Node::Brace(b) | Node::Source(b) | Node::For(_, b) | Node::Subshell(b) | Node::CmdSubst(b) | Node::Bg(b) => tame_in_funcs(b, in_func),
+                    Node::If(b) | Node::Eval(b) | Node::Brace(b) | Node::CaseArm(b) | Node::WhileRead(b) | Node::Source(b) | Node::For(_, b) | Node::Subshell(b) | Node::CmdSubst(b) | Node::Bg(b) => tame_in_funcs(b, in_func),
                     _ => {}
                 }
             }
@@ -618,7 +709,7 @@ impl C16 {
         fn has_err_exit(ns: &[Node]) -> bool {
             ns.iter().any(|n| match n {
                 Node::TrapErr(ErrHandler::Exits(_)) => true,
-                Node::If(b) | Node::Eval(b) | Node::Brace(b) | Node::Func(b) | Node::Source(b) | Node::For(_, b) | Node::Subshell(b) | Node::CmdSubst(b) | Node::Bg(b) => has_err_exit(b),
+                Node::If(b) | Node::Eval(b) | Node::Brace(b) | Node::CaseArm(b) | Node::WhileRead(b) | Node::Func(b) | Node::Source(b) | Node::For(_, b) | Node::Subshell(b) | Node::CmdSubst(b) | Node::Bg(b) => has_err_exit(b),
                 _ => false,
             })
         }
@@ -627,7 +718,7 @@ impl C16 {
                 match n {
                     Node::Term(Cause::Exit(_)) => *n = Node::Term(Cause::Exit(Some(0))),
                     Node::TrapExit(Handler::Exits(_) | Handler::Failing) => *n = Node::TrapExit(Handler::ProbeOnly),
-                    Node::If(b) | Node::Eval(b) | Node::Brace(b) | Node::Func(b) | Node::Source(b) | Node::For(_, b) | Node::Subshell(b) | Node::CmdSubst(b) | Node::Bg(b) => tame(b),
+                    Node::If(b) | Node::Eval(b) | Node::Brace(b) | Node::CaseArm(b) | Node::WhileRead(b) | Node::Func(b) | Node::Source(b) | Node::For(_, b) | Node::Subshell(b) | Node::CmdSubst(b) | Node::Bg(b) => tame(b),
                     _ => {}
                 }
             }
@@ -786,8 +877,8 @@ fn handler_of(case: &Case, marker: &Option<String>) -> Option<Handler> {
                 Node::Probe | Node::Out => {
                     *next += 1;
                 }
-                Node::Status(_) | Node::TrapErr(_) | Node::Term(_) => {}
-                Node::If(b) | Node::Eval(b) | Node::Brace(b) | Node::Subshell(b) | Node::Bg(b) => {
+                Node::Status(_) | Node::StatusVia(_) | Node::TrapErr(_) | Node::Term(_) => {}
+                Node::If(b) | Node::Eval(b) | Node::Brace(b) | Node::CaseArm(b) | Node::WhileRead(b) | Node::Subshell(b) | Node::Bg(b) => {
                     if let Some(h) = walk(b, next, want) {
                         return Some(h);
                     }
@@ -1028,7 +1119,7 @@ impl Check for C16 {
                 res.push(d);
                 // replace a container by its body, or shrink inside it
                 let inner: Option<&Vec<Node>> = match &nodes[i] {
-                    Node::If(b) | Node::Eval(b) | Node::Brace(b) | Node::Func(b) | Node::Source(b) | Node::For(_, b) => Some(b),
+                    Node::If(b) | Node::Eval(b) | Node::Brace(b) | Node::CaseArm(b) | Node::WhileRead(b) | Node::Func(b) | Node::Source(b) | Node::For(_, b) => Some(b),
                     _ => None,
                 };
                 if let Some(b) = inner {
@@ -1041,6 +1132,8 @@ impl Check for C16 {
                         Node::If(_) => Node::If(nb),
                         Node::Eval(_) => Node::Eval(nb),
                         Node::Brace(_) => Node::Brace(nb),
+                        Node::CaseArm(_) => Node::CaseArm(nb),
+                        Node::WhileRead(_) => Node::WhileRead(nb),
                         Node::Func(_) => Node::Func(nb),
                         Node::Source(_) => Node::Source(nb),
                         Node::For(k, _) => Node::For(*k, nb),
@@ -1051,7 +1144,7 @@ impl Check for C16 {
                     }
                 };
                 let body: Option<&Vec<Node>> = match &nodes[i] {
-                    Node::If(b) | Node::Eval(b) | Node::Brace(b) | Node::Func(b) | Node::Source(b) | Node::For(_, b) | Node::Subshell(b) | Node::CmdSubst(b) | Node::Bg(b) => Some(b),
+                    Node::If(b) | Node::Eval(b) | Node::Brace(b) | Node::CaseArm(b) | Node::WhileRead(b) | Node::Func(b) | Node::Source(b) | Node::For(_, b) | Node::Subshell(b) | Node::CmdSubst(b) | Node::Bg(b) => Some(b),
                     _ => None,
                 };
                 if let Some(b) = body {
